@@ -111,7 +111,11 @@ func c12Rules(p *core.Prog, r *core.Run) {
 	} else {
 		r.Analysed(p.FuncName(doh))
 		n := 0
-		for _, b := range doh.Blocks {
+		var dohBlocks []*ssa.BasicBlock
+		for _, f := range withHelpers(p, doh) {
+			dohBlocks = append(dohBlocks, f.Blocks...)
+		}
+		for _, b := range dohBlocks {
 			for _, in := range b.Instrs {
 				ms, ok := in.(*ssa.MakeSlice)
 				if !ok {
